@@ -341,17 +341,38 @@ def _maybe_float(value: Any) -> Any:
         return value
 
 
-def _default_matches_schema(default: Any, schema: Schema) -> bool:
+def _default_matches_schema(
+    default: Any, schema: Schema, named_schemas: Optional[NamedSchemas] = None
+) -> bool:
     # TODO: Consider using the validate functions here
+    if isinstance(schema, dict):
+        schema_type = schema.get("type")
+    elif isinstance(schema, str) and schema not in PRIMITIVES:
+        # a reference to a named type
+        named_schema = (named_schemas or {}).get(schema)
+        schema_type = named_schema.get("type") if named_schema else None
+    else:
+        schema_type = schema
+
+    is_bool = isinstance(default, bool)
     if (
-        (schema == "null" and default is not None)
-        or (schema == "boolean" and not isinstance(default, bool))
-        or (schema == "string" and not isinstance(default, str))
-        or (schema == "bytes" and not isinstance(default, str))
-        or (schema == "double" and not isinstance(_maybe_float(default), float))
-        or (schema == "float" and not isinstance(_maybe_float(default), float))
-        or (schema == "int" and not isinstance(default, int))
-        or (schema == "long" and not isinstance(default, int))
+        (schema_type == "null" and default is not None)
+        or (schema_type == "boolean" and not is_bool)
+        or (schema_type == "string" and not isinstance(default, str))
+        or (schema_type == "bytes" and not isinstance(default, str))
+        or (
+            schema_type == "double"
+            and (is_bool or not isinstance(_maybe_float(default), float))
+        )
+        or (
+            schema_type == "float"
+            and (is_bool or not isinstance(_maybe_float(default), float))
+        )
+        or (schema_type == "int" and (is_bool or not isinstance(default, int)))
+        or (schema_type == "long" and (is_bool or not isinstance(default, int)))
+        or (schema_type in ("enum", "fixed") and not isinstance(default, str))
+        or (schema_type == "array" and not isinstance(default, list))
+        or (schema_type in ("map", "record", "error") and not isinstance(default, dict))
     ):
         return False
     return True
@@ -393,7 +414,7 @@ def _parse_schema(
         ]
         if default is not NO_DEFAULT:
             for s in parsed_schemas:
-                if _default_matches_schema(default, s):
+                if _default_matches_schema(default, s, named_schemas):
                     break
             else:
                 _raise_default_value_error(default, schema, ignore_default_error)
@@ -412,6 +433,10 @@ def _parse_schema(
 
         if schema not in named_schemas:
             raise UnknownType(schema)
+
+        if default is not NO_DEFAULT:
+            if not _default_matches_schema(default, schema, named_schemas):
+                _raise_default_value_error(default, schema, ignore_default_error)
 
         if expand and "name" in named_schemas[schema]:
             # If `name` is in the schema, it has been fully resolved and so we
@@ -571,16 +596,7 @@ def _parse_schema(
         elif schema_type in PRIMITIVES:
             parsed_schema["type"] = schema_type
             if default is not NO_DEFAULT:
-                if (
-                    (schema_type == "null" and default is not None)
-                    or (schema_type == "boolean" and not isinstance(default, bool))
-                    or (schema_type == "string" and not isinstance(default, str))
-                    or (schema_type == "bytes" and not isinstance(default, str))
-                    or (schema_type == "double" and not isinstance(default, float))
-                    or (schema_type == "float" and not isinstance(default, float))
-                    or (schema_type == "int" and not isinstance(default, int))
-                    or (schema_type == "long" and not isinstance(default, int))
-                ):
+                if not _default_matches_schema(default, schema_type):
                     _raise_default_value_error(
                         default, schema_type, ignore_default_error
                     )
